@@ -1344,3 +1344,43 @@ fn domain_from_str() {
         ]))
     );
 }
+
+/// Verification hooks (built only with `--cfg erbium_verif`): access to the
+/// private fields of the name/EDNS newtypes, the crate-private parser and the
+/// reply-assembly functions of the listener.  Add-only; nothing here is used
+/// by the crate itself.
+#[cfg(erbium_verif)]
+pub mod verif {
+    use super::*;
+
+    pub fn domain_labels(d: &Domain) -> Vec<Vec<u8>> {
+        d.0.iter().map(|l| l.0.clone()).collect()
+    }
+    pub fn mk_edns(opts: Vec<EdnsOption>) -> EdnsData {
+        EdnsData(opts)
+    }
+    pub fn edns_options(e: &EdnsData) -> &[EdnsOption] {
+        &e.0
+    }
+    /// The crate's decoder.
+    pub fn parse(b: &[u8]) -> Result<DNSPkt, String> {
+        crate::dns::parse::PktParser::new(b).get_dns()
+    }
+    /// `prefix` followed by the names, each written by the compressing name
+    /// encoder against one shared dictionary.
+    pub fn push_names(prefix: &[u8], names: &[Domain]) -> Vec<u8> {
+        let mut v = prefix.to_vec();
+        let mut offsets = DomainOffsets::new();
+        for d in names {
+            push_compressed_domain(&mut v, d, &mut offsets, 0);
+        }
+        v
+    }
+    /// Decode `count` consecutive names starting at `offset`.
+    pub fn get_domains(b: &[u8], offset: usize, count: usize) -> Result<Vec<Domain>, String> {
+        let mut p = crate::dns::parse::PktParser::new(b);
+        p.verif_seek(offset);
+        (0..count).map(|_| p.get_domain()).collect()
+    }
+    pub use crate::dns::verif_fwd::*;
+}
